@@ -18,6 +18,7 @@ def c17(run):
     r_file.run(run, P)
     r_file.run_restore_key(run, P)
     r_file.run_copy_through(run, P)
+    r_file.run_no_remove(run, P)
     run.min_instances('R-FILE-MODE', 14)
     run.min_instances('R-PERSIST', 6)
     run.assumptions = ASSUME_COMMON + ["fopen mode strings are literals (a non-literal mode is counted and not judged)"]
@@ -67,6 +68,7 @@ def c18(run):
     r_realloc.run(run, P)
     from rules import r_consume
     r_consume.run(run, P)
+    r_consume.run_handback(run, P)
     from rules import r_noexit
     r_noexit.run(run, P)
     run.assumptions = ASSUME_COMMON + ["every allocation funnels through coap_malloc_type/coap_realloc_type/malloc/calloc/realloc/strdup",
@@ -90,6 +92,7 @@ def c12(run):
     r_session.run_sess_evt(run, P)
     r_session.run_teardown(run, P)
     r_session.run_hashed(run, P)
+    r_session.run_touch(run, P)
     from rules import r_consume
     r_consume.run(run, P)
     from rules import r_ownlocal
@@ -120,9 +123,12 @@ def c01(run):
     r_codec.run_toklen(run, P)
     r_codec.run_tokext(run, P)
     r_codec.run_tokbias(run, P)
+    r_codec.run_tokmax(run, P)
+    r_codec.run_marker(run, P)
     r_width.run_a(run, P)
     r_fixup.run_stale(run, P, only=_codec_funcs(P))
     r_fixup.run_pairing(run, P)
+    r_fixup.run_atomic(run, P)
     from rules import r_stalecopy
     r_stalecopy.run_scalar(run, P)       # no stale copy of the running option number across an appending call
     run.min_instances('R-CODEC-TAB', 30)
@@ -143,6 +149,8 @@ def c03(run):
     r_codec.run_toklen(run, P)
     r_codec.run_tokext(run, P)
     r_codec.run_tokbias(run, P)
+    r_codec.run_tokmax(run, P)
+    r_codec.run_marker(run, P)
     r_parsegate.run(run, P)
     r_parsegate.run_outputs(run, P)
     r_parsegate.run_verdict(run, P)
@@ -163,6 +171,7 @@ def c04(run):
     r_width.run_a(run, P)
     r_fixup.run_stale(run, P, only=_codec_funcs(P))
     r_fixup.run_pairing(run, P)
+    r_fixup.run_atomic(run, P)
     from rules import r_stalecopy
     r_stalecopy.run_scalar(run, P)
     from rules import r_codec
@@ -170,6 +179,8 @@ def c04(run):
     r_codec.run_toklen(run, P)
     r_codec.run_tokext(run, P)
     r_codec.run_tokbias(run, P)
+    r_codec.run_tokmax(run, P)
+    r_codec.run_marker(run, P)
     run.min_instances('R-FIXUP', 8)
     run.assumptions = ASSUME_COMMON + ["equality with the list model after arbitrary edit sequences is NOT decided"]
     return run.finish(
@@ -184,6 +195,7 @@ def c05(run):
     r_stream.run_adv(run, P)
     r_stream.run_phase(run, P)
     r_stream.run_cursor(run, P)
+    r_stream.run_needed_len(run, P)
     r_stream.run_cap(run, P)
     r_stream.run_cap_own(run, P)
     run.min_instances('R-STREAM-ADV', 4)
@@ -204,6 +216,7 @@ def c16(run):
     r_lenread.run_outcap(run, P)
     r_lenread.run_accum_guard(run, P)
     r_uriclass.run(run, P)
+    r_uriclass.run_hexcase(run, P)
     from rules import r_sizefill
     r_sizefill.run(run, P, units=('coap_uri.c',))
     uri_funcs = set(f['name'] for f in P.lib_funcs() if f['unit'] == 'coap_uri.c')
@@ -230,6 +243,7 @@ def c15(run):
     from rules import r_ssn
     r_ssn.run(run, P)
     r_ssn.run_echo_piv(run, P)
+    r_ssn.run_ctx_siblings(run, P)
     run.min_instances('R-RANGE', 4)
     run.min_instances('R-REPLAY-OWN', 8)
     run.min_instances('R-REPLAY-RB', 5)
@@ -252,6 +266,8 @@ def c08(run):
     r_cnt.run_counted_queued(run, P)
     r_cnt.run_reset_drains(run, P)
     r_cnt.run_flush_order(run, P)
+    from rules import r_midzero
+    r_midzero.run(run, P)
     from rules import r_ownnode
     r_ownnode.run_queue_key(run, P)       # the node an ACK/RST retires is the one of that session and message id
     run.min_instances('R-CNT-CON', 8)
@@ -275,6 +291,8 @@ def c06(run):
     r_cnt.run_counted_queued(run, P)     # a counted Confirmable is queued for retransmission (or un-counted): it cannot vanish without an outcome
     from rules import r_timer
     r_timer.run(run, P)
+    from rules import r_midzero
+    r_midzero.run(run, P)
     run.min_instances('R-OWN-NODE', 8)
     run.min_instances('R-RETRANS', 2)
     run.assumptions = ASSUME_COMMON + ["timing (T, 2T, 4T; reported wait <= earliest deadline), byte-identical retransmission and behaviour under loss patterns are NOT decided",
@@ -298,6 +316,7 @@ def c10(run):
     r_ownpdu.run(run, P, only=set(REPLY_FUNCS))
     r_reply.run(run, P)
     r_reply.run_ack_con(run, P)
+    r_reply.run_resolve_order(run, P)
     from rules import r_suppress
     r_suppress.run(run, P)
     from rules import r_ownnode
@@ -327,6 +346,7 @@ def c09(run):
     run.require(n >= (15 if run.cfg == 'base' else 1), 'R-CMP-BOUND: fewer than 15 (base) / 1 (reduced configurations) key comparisons found in coap_block.c')
     from rules import r_bodydone
     r_bodydone.run(run, P)
+    r_bodydone.run_token_restore(run, P)
     run.min_instances('R-RELEASE-ONCE', 5)
     run.assumptions = ASSUME_COMMON + ["body integrity, tiling, at-most-once delivery, token hiding and size fitting (arithmetic over runtime lengths and schedules) are NOT decided",
                                        "paths on which taking the global lock fails carry no obligations"]
@@ -341,6 +361,8 @@ def c09(run):
 def c20(run):
     from rules import r_outbound
     P = run.prog('rel')
+    from rules import r_attrflags
+    r_attrflags.run(run, P)
     r_outbound.run(run, P)
     from rules import r_cmpbound
     n = r_cmpbound.run(run, P, only={'match', 'coap_print_wellknown_lkd', 'coap_find_attr'})
@@ -360,6 +382,7 @@ def c19(run):
     P = run.prog('rel')
     r_route.run(run, P)
     r_route.run_psk(run, P)
+    r_route.run_event_reset(run, P)
     from rules import r_delayq
     r_delayq.run(run, P)
     run.min_instances('R-ROUTE', 8)
@@ -384,6 +407,8 @@ def c14(run):
     r_oscsplit.run_match_acc(run, P)
     from rules import r_oscflags
     r_oscflags.run(run, P)
+    from rules import r_osccbor
+    r_osccbor.run(run, P)
     run.min_instances('R-OSC-SPLIT', 7)
     run.assumptions = ASSUME_COMMON + ["byte equality with an independent RFC 8613 implementation (COSE object, AAD, nonce, AES-CCM output) and the round trip are NOT decided"]
     return run.finish(
@@ -408,6 +433,7 @@ def c02(run):
     r_stream.run_adv(run, P)
     r_stream.run_phase(run, P)
     r_stream.run_cursor(run, P)
+    r_stream.run_needed_len(run, P)
     r_parsegate.run(run, P)
     r_fixup.run_stale(run, P)
     from rules import r_cmpbound
@@ -449,6 +475,8 @@ def c07(run):
     r_response.run(run, P)
     from rules import r_width
     r_width.run_c(run, P)        # the 'none yet' sentinels of the duplicate filter (last_con_mid / last_ack_mid) stay outside the mid space
+    from rules import r_ownnode
+    r_ownnode.run_queue_key(run, P)      # an ACK / RST / duplicate retires only the request of its own session and message id: no other request loses its retransmission
     run.min_instances('R-RESP', 4)
     run.assumptions = ASSUME_COMMON + ["exactly-once conclusion over all patterns of loss / duplication / delay, the NACK side (coap_retransmit give-up, decided under C06) and the "
                                        "server's separate-response machinery are NOT decided; returns of handle_response() that never reach the handler (token-size / Q-Block "
@@ -469,6 +497,7 @@ def c11(run):
     r_observe.run_con(run, P)
     r_observe.run_rst(run, P)
     r_observe.run_dirty(run, P)
+    r_observe.run_delete_key(run, P)
     run.assumptions = ASSUME_COMMON + ["freshness / ordering of Observe values, 'the last state is eventually notified', NSTART back-pressure and every deregistration route other than "
                                        "the Reset with a matching queue node are NOT decided; 'the session stays alive while it has observers' is the holder rule of C12"]
     return run.finish(
